@@ -215,12 +215,22 @@ fn main() {
         }
         "replaymc" => {
             // --lines: one JSON object per line {"h":[choice,...]} (TLC schedules); --cfg: ClusterCfg json
+            // --tree: the schedules are merged into a trie: every event gets an `id` and the `parent` id of the
+            //         event it follows, and an event shared by several schedules is written once
             let path = arg(&args, "--lines").expect("--lines");
+            let tree = args.iter().any(|a| a == "--tree");
             let cfg: ClusterCfg = serde_json::from_reader(File::open(arg(&args, "--cfg").expect("--cfg")).unwrap()).unwrap();
             let f = std::io::BufReader::new(File::open(&path).unwrap());
             use std::io::BufRead;
             let mut run = 0u64;
             let (mut total, mut skipped) = (0usize, 0usize);
+            let mut next_id = 1u64; // id 1 is the Reset line of the tree
+            let mut trie: std::collections::HashMap<(u64, String), u64> = Default::default();
+            if tree {
+                let v = json!({"ev": "Reset", "run": 0, "profile": "mc", "seed": 0, "ids": cfg.ids, "voters": cfg.voters,
+                               "learners": cfg.learners, "n": 0, "seq": 0, "id": 1, "parent": 0});
+                writeln!(w, "{}", v).unwrap();
+            }
             for line in f.lines() {
                 let line = line.unwrap();
                 if line.trim().is_empty() {
@@ -229,7 +239,9 @@ fn main() {
                 let v: serde_json::Value = serde_json::from_str(&line).unwrap();
                 run += 1;
                 let mut cl = Cluster::new(cfg.clone());
-                reset_line(&mut w, run, "mc", run, &cl.cfg);
+                if !tree {
+                    reset_line(&mut w, run, "mc", run, &cl.cfg);
+                }
                 let hs = v["h"].as_array().unwrap();
                 // the Init choice carries the timeouts drawn at start
                 if let Some(rts) = hs.first().and_then(|c| c.get("rts")) {
@@ -244,7 +256,30 @@ fn main() {
                         }
                     }
                 }
-                let mut evs = cl.init_all();
+                let mut cur = 1u64;
+                let mut emit = |w: &mut BufWriter<File>, e: &Event, key: String, cur: &mut u64, total: &mut usize| {
+                    if tree {
+                        if let Some(id) = trie.get(&(*cur, key.clone())) {
+                            *cur = *id;
+                            return;
+                        }
+                        next_id += 1;
+                        trie.insert((*cur, key), next_id);
+                        let mut v = serde_json::to_value(e).unwrap();
+                        v["run"] = json!(run);
+                        v["id"] = json!(next_id);
+                        v["parent"] = json!(*cur);
+                        writeln!(w, "{}", v).unwrap();
+                        *cur = next_id;
+                    } else {
+                        write_events(w, std::slice::from_ref(e), run);
+                    }
+                    *total += 1;
+                };
+                let init_key = hs.first().map(|c| c.to_string()).unwrap_or_default();
+                for (k, e) in cl.init_all().iter().enumerate() {
+                    emit(&mut w, e, format!("init{}:{}", k, init_key), &mut cur, &mut total);
+                }
                 for c in hs.iter().skip(1) {
                     if let Some(rt) = c.get("rt").and_then(|x| x.as_u64()) {
                         let n = c.get("n").and_then(|x| x.as_u64()).or_else(|| c["m"].get("to").and_then(|x| x.as_u64()));
@@ -253,6 +288,7 @@ fn main() {
                             cl.nodes[i].rt_next = rt as usize;
                         }
                     }
+                    let key = c.to_string();
                     let mut cv = c.clone();
                     if let Some(o) = cv.as_object_mut() {
                         o.remove("rt");
@@ -264,14 +300,12 @@ fn main() {
                     }
                     match serde_json::from_value::<Choice>(cv.clone()) {
                         Ok(ch) => match cl.apply_choice(&ch) {
-                            Some(e) => evs.push(e),
+                            Some(e) => emit(&mut w, &e, key, &mut cur, &mut total),
                             None => skipped += 1,
                         },
                         Err(e) => panic!("bad choice {}: {}", cv, e),
                     }
                 }
-                total += evs.len();
-                write_events(&mut w, &evs, run);
             }
             eprintln!("simrun: replayed {} schedules, {} events, {} inapplicable choices", run, total, skipped);
         }
